@@ -248,21 +248,28 @@ public:
 
     X get_first_x() const { return first; }
 
-    std::pair<long double, long double> get_intersection() const {
+    std::pair<long double, long double> get_intersection() const { return get_intersection(X(0)); }
+
+    /**
+     * Returns the intersection with the x coordinate relative to @p origin. For 64-bit keys of large magnitude the
+     * absolute coordinate is not representable in a long double, while the offset from a nearby origin is.
+     */
+    std::pair<long double, long double> get_intersection(const X &origin) const {
         auto &p0 = rectangle[0];
         auto &p1 = rectangle[1];
         auto &p2 = rectangle[2];
         auto &p3 = rectangle[3];
         auto slope1 = p2 - p0;
         auto slope2 = p3 - p1;
+        auto p0_x = static_cast<long double>(SX(p0.x) - SX(origin));
 
         if (one_point() || slope1 == slope2)
-            return {p0.x, p0.y};
+            return {p0_x, p0.y};
 
         auto p0p1 = p1 - p0;
         auto a = slope1.dx * slope2.dy - slope1.dy * slope2.dx;
         auto b = (p0p1.dx * slope2.dy - p0p1.dy * slope2.dx) / static_cast<long double>(a);
-        auto i_x = p0.x + b * slope1.dx;
+        auto i_x = p0_x + b * slope1.dx;
         auto i_y = p0.y + b * slope1.dy;
         return {i_x, i_y};
     }
